@@ -512,6 +512,12 @@ func (ex *tmplExec) callFunc(dot tv, name string, args []parse.Node, final tv, h
 		return tv{typString, ex.escape(avs, false)}
 	case "_html_template_attrescaper":
 		return tv{typString, ex.escape(avs, true)}
+	case "_html_template_htmlnamefilter":
+		// attribute names: a value typed template.HTMLAttr is trusted and passes through
+		if len(avs) == 1 && avs[0].t != nil && typeFullName(avs[0].t) == "html/template.HTMLAttr" {
+			return tv{avs[0].t, avs[0].v}
+		}
+		in.unsupported("template: untyped text in attribute-name position")
 	case "not":
 		if len(avs) != 1 {
 			in.unsupported("template: not with wrong argument count")
